@@ -191,7 +191,18 @@ pub fn run(seed: u64, n: usize, out: &Path, thorough: bool) -> anyhow::Result<()
             let mut data = wire.clone();
             let (complete, truncated) = match variant {
                 0 => (true, false),
-                1 => { let cut = rng.below(data.len() as u64 + 1) as usize; data.truncate(cut); (cut == wire.len(), cut != wire.len()) }
+                1 => {
+                    // anywhere; or (a third of the time) inside a length header: 1-3 bytes after a frame boundary
+                    let mut cut = rng.below(data.len() as u64 + 1) as usize;
+                    if rng.chance(1, 3) {
+                        let k = rng.below(frames.len().max(1) as u64) as usize;
+                        let boundary: usize = frames.iter().take(k).map(|f| 4 + f.len()).sum();
+                        let c = boundary + 1 + rng.below(3) as usize;
+                        if c < data.len() { cut = c; stats.inc("stream_cut_inside_header"); }
+                    }
+                    data.truncate(cut);
+                    (cut == wire.len(), cut != wire.len())
+                }
                 2 => { data = corrupt(&mut rng, &data); if rng.chance(1, 3) { data.splice(0..0, [0x7f, 0xff, 0xff, 0xff]); } (false, false) }
                 _ => {
                     // a length header that is a little too small or too large for its message
